@@ -118,6 +118,13 @@ def c11 (toks : List String) : String :=
             | .some o => toHex o
       | _ => "bad-op"
     | _ => "bad-op"
+  | ["wire", h] =>
+    hexOr h fun b =>
+      match parseRequest b with
+      | .panic => "panic"
+      | .ok r =>
+        let o := outgoing r
+        s!"hop={o.hopLimit} type={o.typeId} id={o.id} seq={o.seq} len={o.dataLen}"
   | "decode" :: chunks =>
     match chunks.mapM parseHex with
     | none => "bad-op"
